@@ -62,10 +62,13 @@ Obfs     == {"hostname", "ip", "keyword", "mac", "password"}     \* + "ipv6", wh
 (*           compete for every name of the domain)                          *)
 (*   pwip    the secret after a password key is the address ip 1            *)
 (*   kwhost  keyword 1 is a part of the host label of dom 1                 *)
+(*   kwsub   keyword 1 is a part of keyword 2 (secret / topsecret); kwsup: 2 of 1 *)
+(*   vt      plain text contains a character that some line splitters take for a line end  *)
+(*           (vertical tab, form feed, FS..RS, NEL, U+2028): a line is what ends in a newline *)
 (*   v6lb    an IPv6 address with punctuation on its left has ] ^ or ` there *)
 (*   eqlen   the domain hosts have names of equal length (ties in a        *)
 (*           longest-first treatment), the highest id may be longer        *)
-AllFam   == {"plain", "prefix", "collide", "suffix", "kwdom", "kwhost", "pwip", "eqlen", "v6lb"}
+AllFam   == {"plain", "prefix", "collide", "suffix", "kwdom", "kwhost", "pwip", "eqlen", "v6lb", "kwsub", "kwsup", "vt"}
 
 VARIABLES
     phase,      \* "new" | "idle" | "spec" | "done"
